@@ -56,23 +56,54 @@ theorem C05_move_options (noOverwrite : Bool) : moveDecode (moveHeaders noOverwr
   cases noOverwrite <;> decide
 
 /-- Stat / ReadDir entry: the client rebuilds the backend's FileInfo — path, kind, size, modification time, content
-    type and entity tag -/
-theorem C05_fileinfo (k : Codecs Unit) (hk : k.OK) (fi : FileInfo) : fileInfoOf k (fileResp k fi) = .ok fi.seen := by
+    type and entity tag.  The hypotheses are the round trips of THIS value's path, tag, time and size only -/
+theorem C05_fileinfo_at (k : Codecs Unit) (fi : FileInfo)
+    (hh : k.unescHref (k.escHref fi.path) = some fi.path)
+    (ht : fi.isDir = false → k.unquoteTag (k.quoteTag fi.etag) = some fi.etag)
+    (hm : ∀ t, fi.modTime = some t → k.parseDate (k.fmtDate t) = some t)
+    (hi : fi.isDir = false → k.parseInt (k.fmtInt fi.size) = some fi.size) :
+    fileInfoOf k (fileResp k fi) = .ok fi.seen := by
   obtain ⟨path, isDir, size, mod, mime, etag⟩ := fi
+  simp only at hh ht hm hi
   unfold fileInfoOf fileResp FileInfo.seen
-  simp only [hk.href]
-  cases isDir <;> cases mod <;> by_cases hm : mime = "" <;> by_cases he : etag = "" <;>
-    simp [opt, hm, he, WResp.get, optText, hk.int, hk.date, hk.tag, List.find?_cons]
+  simp only [hh]
+  cases isDir with
+  | true =>
+    cases mod with
+    | none => simp [WResp.get]
+    | some t => have hmt := hm t rfl; simp [WResp.get, hmt]
+  | false =>
+    have ht' := ht rfl
+    have hi' := hi rfl
+    cases mod with
+    | none => by_cases hm : mime = "" <;> by_cases he : etag = "" <;>
+        simp [opt, hm, he, WResp.get, optText, hi', ht', List.find?_cons]
+    | some t =>
+      have hmt := hm t rfl
+      by_cases hm : mime = "" <;> by_cases he : etag = "" <;>
+        simp [opt, hm, he, WResp.get, optText, hi', hmt, ht', List.find?_cons]
+
+theorem C05_fileinfo (k : Codecs Unit) (hk : k.OK) (fi : FileInfo) : fileInfoOf k (fileResp k fi) = .ok fi.seen :=
+  C05_fileinfo_at k fi (hk.href _) (fun _ => hk.tag _) (fun _ _ => hk.date _) (fun _ => hk.int _)
 
 /-- ReadDir: every entry of the backend's listing arrives, once, in the backend's order -/
-theorem C05_listing (k : Codecs Unit) (hk : k.OK) (listing : List FileInfo) :
+theorem C05_listing_at (k : Codecs Unit) (listing : List FileInfo)
+    (hall : ∀ fi ∈ listing, k.unescHref (k.escHref fi.path) = some fi.path ∧
+      (fi.isDir = false → k.unquoteTag (k.quoteTag fi.etag) = some fi.etag) ∧
+      (∀ t, fi.modTime = some t → k.parseDate (k.fmtDate t) = some t) ∧
+      (fi.isDir = false → k.parseInt (k.fmtInt fi.size) = some fi.size)) :
     readDir k listing = .ok (listing.map FileInfo.seen) := by
   unfold readDir
   induction listing with
   | nil => rfl
   | cons fi rest ih =>
-    rw [List.map_cons, List.mapM_cons, C05_fileinfo k hk fi, ih]
+    obtain ⟨h1, h2, h3, h4⟩ := hall fi (by simp)
+    rw [List.map_cons, List.mapM_cons, C05_fileinfo_at k fi h1 h2 h3 h4, ih (fun x hx => hall x (by simp [hx]))]
     rfl
+
+theorem C05_listing (k : Codecs Unit) (hk : k.OK) (listing : List FileInfo) :
+    readDir k listing = .ok (listing.map FileInfo.seen) :=
+  C05_listing_at k listing (fun _ _ => ⟨hk.href _, fun _ => hk.tag _, fun _ _ => hk.date _, fun _ => hk.int _⟩)
 
 /-- …under the path by which it can be addressed again: a reported absolute path resolves to itself -/
 theorem C05_reported_paths_addressable (k : Codecs Unit) (hk : k.OK) (listing : List FileInfo) (e : Bytes) :
